@@ -27,6 +27,13 @@ pub fn be_add_small(x: &[u8], d: i64) -> Vec<u8> {
     v
 }
 pub fn hexb(s: &str) -> Vec<u8> { hex::decode(s).unwrap() }
+/// a - b for big-endian byte strings of equal length, a >= b (input construction only)
+pub fn be_sub(a: &[u8], b: &[u8]) -> Vec<u8> {
+    let mut v = a.to_vec();
+    let mut borrow = 0i32;
+    for i in (0..v.len()).rev() { let t = a[i] as i32 - b[i] as i32 - borrow; if t < 0 { v[i] = (t + 256) as u8; borrow = 1; } else { v[i] = t as u8; borrow = 0; } }
+    v
+}
 
 fn msg_fields(f: &mut Value, g: Option<&Gen>, m: &[u8]) {
     f["len"] = json!(m.len());
@@ -150,7 +157,7 @@ pub fn drive_sign(t: &mut Tracer, tier: &str, seed: u64, plan: Option<String>) {
     }
     // (c3) conforming signatures constructed by the specification at the digest level (t = r + s with all-zero 64-bit limbs ...): must be accepted
     for v in read_plan(&plan) {
-        if v["kind"] == "forge" && v["valid"] == true && (v["fault"] == "sparse-t" || v["fault"] == "edge-valid") {
+        if v["kind"] == "forge" && v["valid"] == true && (v["fault"] == "sparse-t" || v["fault"] == "edge-valid" || v["fault"] == "big-e" || v["fault"] == "gen-key") {
             let (r, s) = (arr(&v["r"]), arr(&v["s"]));
             if r[0] != 0 || s[0] != 0 { continue; }
             verify_digest_event(t, &sess(), &arr(&v["pk"]), &arr(&v["e"]), &[r[1..].to_vec(), s[1..].to_vec()].concat(), v["fault"].as_str().unwrap());
@@ -322,6 +329,14 @@ pub fn drive_encrypt(t: &mut Tracer, tier: &str, seed: u64, plan: Option<String>
     }
     // leading-zero and all-zero messages, longer random messages
     let key = key_from(&keys[3]).unwrap();
+    // the ends of the nonce range and its neighbours: k = 1, 2, n-2, n-1 (C1 = G, 2G, -2G, -G), both encodings
+    for (i, k) in [be_add_small(&vec![0u8; 32], 1), be_add_small(&vec![0u8; 32], 2), be_add_small(&hexb(N_HEX), -2), be_add_small(&hexb(N_HEX), -1)].iter().enumerate() {
+        for comp in [false, true] {
+            if let Some(ct) = encrypt_event(t, &sess(), &key, None, b"nonce at the end of its range", orders[i % 2], comp, vec![b32(k)]) {
+                decrypt_event(t, &sess(), "C05", &key.d, &ct, orders[i % 2], comp, "own-ciphertext");
+            }
+        }
+    }
     for m in [vec![0u8; 1], vec![0u8; 32], vec![0u8; 45], vec![0, 0, 0, 7, 9], vec![0, 255]] {
         if let Some(ct) = encrypt_event(t, &sess(), &key, None, &m, "c1c3c2", false, vec![]) {
             decrypt_event(t, &sess(), "C05", &key.d, &ct, "c1c3c2", false, "own-ciphertext");
@@ -430,6 +445,18 @@ pub fn drive_encrypt(t: &mut Tracer, tier: &str, seed: u64, plan: Option<String>
             decrypt_event(t, &sess(), "C05", &arr(&v["d"]), &arr(&v["ct"]), v["order"].as_str().unwrap(), v["compressed"] == 1, "spec-made");
             if v["compressed"] == 0 { der_decrypt_event(t, &sess(), "C05", &arr(&v["d"]), &arr(&v["ct"]), v["order"].as_str().unwrap(), "interop"); }
         }
+        // a nonce the specification searched for: its key stream for a one-byte message is 00, so step A5 goes back to A1 -- the ciphertext must be
+        // exactly the one of the SECOND scripted nonce (nothing of the discarded attempt may leak into it)
+        if v["kind"] == "encretry" && v["found"] == 1 {
+            if let Some(key) = key_from(&arr(&v["d"])) {
+                for (i, m) in [[0x5au8], [0x00u8]].iter().enumerate() {
+                    let mut k2 = rng.bytes(32); k2[0] &= 0x7f;
+                    if let Some(ct) = encrypt_event(t, &sess(), &key, None, m, orders[i % 2], i == 1, vec![b32(&arr(&v["kbad"])), b32(&k2)]) {
+                        decrypt_event(t, &sess(), "C05", &key.d, &ct, orders[i % 2], i == 1, "own-ciphertext");
+                    }
+                }
+            }
+        }
         // ... and the specification's ciphertexts for VALID points that it solved for (tiny x, x = 0, x^2 / x^2 + a / y^2 on a reduction boundary of
         // the word arithmetic): ciphertexts an honest sender can produce, so they must decrypt (the invalid ones of the same plan belong to C06)
         let fault = v["fault"].as_str().unwrap_or("");
@@ -471,7 +498,9 @@ pub fn drive_decrypt_faults(t: &mut Tracer, tier: &str, seed: u64, plan: Option<
     let mut sess = || { n += 1; format!("sm2dec/{}", n) };
     let orders: [&'static str; 2] = ["c1c2c3", "c1c3c2"];
     let nct = if thorough { 12 } else { 2 };
-    for i in 0..nct {
+    // (the last three ciphertexts use the scripted nonces 1, n-1 and 2: C1 = G, -G, 2G -- base points a fixed-base shortcut could key on)
+    let special_k: Vec<Vec<u8>> = vec![be_add_small(&vec![0u8; 32], 1), be_add_small(&hexb(N_HEX), -1), be_add_small(&vec![0u8; 32], 2)];
+    for i in 0..(nct + special_k.len()) {
         let mut d = rng.bytes(32); d[0] &= 0x7f;
         let key = match key_from(&d) { Some(k) => k, None => continue };
         let (order, comp) = (orders[i % 2], (i / 2) % 2 == 1);
@@ -479,7 +508,8 @@ pub fn drive_decrypt_faults(t: &mut Tracer, tier: &str, seed: u64, plan: Option<
         let m = rng.bytes(len);
         let pk = key.sk.public_key.clone();
         let m2 = m.clone();
-        let ct = match guard_timed(20, move || pk.encrypt(&m2, comp, model_of(order))) { Outcome::Ok(c) => c, _ => continue };
+        let script: Vec<[u8; 32]> = if i >= nct { vec![b32(&special_k[i - nct])] } else { vec![] };
+        let ct = match hooked(move || pk.encrypt(&m2, comp, model_of(order)), script).0 { Outcome::Ok(c) => c, _ => continue };
         decrypt_event(t, &sess(), "C06", &key.d, &ct, order, comp, "untouched");
         // every single-bit flip
         for bit in 0..(ct.len() * 8) {
@@ -514,6 +544,12 @@ pub fn drive_decrypt_faults(t: &mut Tracer, tier: &str, seed: u64, plan: Option<
             let mut c2 = ct.clone(); c2[0] = tag;
             decrypt_event(t, &sess(), "C06", &key.d, &c2, order, comp, "retag");
             if !comp && (tag == 2 || tag == 3) { let mut c3 = c2.clone(); for b in c3[33..65].iter_mut() { *b = rng.below(256) as u8; } decrypt_event(t, &sess(), "C06", &key.d, &c3, order, comp, "retag-junk-y"); }
+        }
+        // C1 replaced by -C1 (a valid curve point, another point): y -> p - y, resp. the other compression tag
+        {
+            let mut c2 = ct.clone();
+            if comp { c2[0] ^= 1; } else { let ny = be_sub(&hexb(P_HEX), &ct[33..65]); c2[33..65].copy_from_slice(&ny); }
+            decrypt_event(t, &sess(), "C06", &key.d, &c2, order, comp, "negate-c1");
         }
         // wrong format flags, extension, other key
         decrypt_event(t, &sess(), "C06", &key.d, &ct, order, !comp, "wrong-encoding-flag");
@@ -739,7 +775,13 @@ pub fn drive_kex(t: &mut Tracer, tier: &str, seed: u64, plan: Option<String>) {
             ra_script: vec![], rb_script: vec![b32(&arr(&v["rb"]))], da: arr(&v["da"]), db: arr(&v["db"]), forge: None, none_mask: 16 };
         kx_run(t, &sess(), &run, &mut rng);
     }
-    for (i, v) in read_plan(&plan).iter().filter(|v| v["kind"] != "forge" && v["kind"] != "vzero" && v["kind"] != "tzero").enumerate() {
+    // an honest run whose one-byte key is 00 (the responder's scalar searched by the specification): it must succeed like any other
+    for v in read_plan(&plan).iter().filter(|v| v["kind"] == "kzero" && v["check"] == 1) {
+        let run = KxRun { t_ra: false, t_rb: false, t_sb: false, t_sa: false, kind: "kzero".into(), klen: 1, ida: "alice".into(), idb: "bob".into(),
+            ra_script: vec![b32(&arr(&v["ra"]))], rb_script: vec![b32(&arr(&v["rb"]))], da: arr(&v["da"]), db: arr(&v["db"]), forge: None, none_mask: 16 };
+        kx_run(t, &sess(), &run, &mut rng);
+    }
+    for (i, v) in read_plan(&plan).iter().filter(|v| v["kind"] != "forge" && v["kind"] != "vzero" && v["kind"] != "tzero" && v["kind"] != "kzero").enumerate() {
         let reps = if thorough { 3 } else { 1 };
         for _ in 0..reps {
             let run = KxRun { t_ra: v["ra"] == 1, t_rb: v["rb"] == 1, t_sb: v["sb"] == 1, t_sa: v["sa"] == 1, kind: v["kind"].as_str().unwrap().into(), klen: 16 + (i % 40),
@@ -970,6 +1012,14 @@ pub fn drive_codec(t: &mut Tracer, tier: &str, seed: u64) {
         codec_decode_event(t, &sess(), "pk_bytes", &ff, "coords>=p", false);
         codec_decode_event(t, &sess(), "pk_hex", b"zz", "bad-hex", false);
         codec_decode_event(t, &sess(), "pk_hex", b"04abc", "bad-hex", false);
+        // a VALID encoding followed by one stray hex digit (an odd number of digits is not hex): every decoder that takes text
+        for extra in ["0", "f"] {
+            codec_decode_event(t, &sess(), "pk_hex", format!("{}{}", hex::encode(&pku), extra).as_bytes(), "odd-digits", false);
+            codec_decode_event(t, &sess(), "pk_hex", format!("{}{}", hex::encode(&pkc), extra).as_bytes(), "odd-digits", false);
+            codec_decode_event(t, &sess(), "sk_hex", format!("{}{}", hex::encode(&arr(&enc["skb"])), extra).as_bytes(), "odd-digits", false);
+        }
+        codec_decode_event(t, &sess(), "pk_hex", hex::encode(&pku).to_uppercase().as_bytes(), "uppercase", false);
+        codec_decode_event(t, &sess(), "sk_hex", hex::encode(&arr(&enc["skb"])).to_uppercase().as_bytes(), "uppercase", false);
         let mut spki = arr(&enc["spki_der"]);
         let l = spki.len(); spki[l - 1] ^= 1;
         codec_decode_event(t, &sess(), "spki_der", &spki, "off-curve", false);
@@ -1209,6 +1259,34 @@ pub fn drive_ec(t: &mut Tracer, tier: &str, seed: u64, plan: Option<String>) {
         let gb = g.to_affine_point();
         ec_event(t, &sess(), "ec.smul", json!({"p": pt_json(&gb), "k": bytes(k)}), gp(|| gb.scalar_mul(&ku)));
         ec_event(t, &sess(), "ec.gmul", json!({"k": bytes(k)}), gp(|| g_mul(&ku)));
+    }
+    // the AFFINE validity predicate (reads x and y only), incl. the two curve points with x = 0 -- (0, +-sqrt b): b is a square modulo p -- and
+    // an off-curve point with x = 0
+    {
+        let b_mont = verif::fp_to_mont(&be_u256(&hexb("28e9fa9e9d9f5e344d5a9e4bcf6509a7f39789f515ab8f92ddbcbd414d940e93")));
+        let one = verif::fp_to_mont(&[1, 0, 0, 0]);
+        let mut cands: Vec<Point> = vec![pts[0].to_affine_point(), pts[2 % pts.len()].to_affine_point(), { let mut q = pts[1].to_affine_point(); q.y[1] ^= 4; q }];
+        if let Outcome::Ok(yb) = crate::trace::guard(|| verif::fp_sqrt(&b_mont)) {
+            cands.push(Point { x: [0, 0, 0, 0], y: yb, z: one });
+            cands.push(Point { x: [0, 0, 0, 0], y: verif::fp_neg(&yb), z: one });
+            cands.push(Point { x: [0, 0, 0, 0], y: verif::fp_double(&yb), z: one });
+        }
+        for a in cands {
+            let o = gp(|| a.is_valid_affine_point());
+            t.emit(&sess(), "ec.valid_affine", json!({"prop": "C11", "p": pt_json(&a), "valid": if o.ok() == Some(&true) { 1 } else { 0 }, "outcome": o.name(), "detail": o.detail()}));
+            let o2 = gp(|| a.is_valid());
+            t.emit(&sess(), "ec.valid", json!({"prop": "C11", "p": pt_json(&a), "valid": if o2.ok() == Some(&true) { 1 } else { 0 }, "outcome": o2.name(), "detail": o2.detail()}));
+        }
+    }
+    // the generator and its NEGATIVE as ordinary (affine and Jacobian) base points of the variable-base multiplication: a fixed-base shortcut keyed on
+    // the base must compare the whole point
+    {
+        let (gp1, gn) = (g.to_affine_point(), g.neg().to_affine_point());
+        let gnj = rerandomize(&gn, &lam(&mut rng));
+        for k in [be_add_small(&vec![0u8; 32], 1), be_add_small(&vec![0u8; 32], 2), be_add_small(&nhex, -1), rng.bytes(32), scalars[7 % scalars.len()].clone()] {
+            let ku = be_u256(&k);
+            for b in [gp1, gn, gnj] { ec_event(t, &sess(), "ec.smul", json!({"p": pt_json(&b), "k": bytes(&k)}), gp(|| b.scalar_mul(&ku))); }
+        }
     }
     // every single-byte scalar b * 256^i through the fixed-base multiplication (quick: a stride)
     for i in 0..32usize {
